@@ -40,6 +40,41 @@ CRITICAL = {
 }
 
 
+REPO_CODES = []      # every code object of awesomeyaml, collected once per process tree (see preinstrument)
+
+
+def _walk_code(code, out, seen):
+    import types
+    if code in seen:
+        return
+    seen.add(code)
+    out.append(code)
+    for c in code.co_consts:
+        if isinstance(c, types.CodeType):
+            _walk_code(c, out, seen)
+
+
+def preinstrument():
+    """Called once after awesomeyaml was imported (in the process all runs are forked from): LINE events are
+    switched on *locally* for every code object of the library and nowhere else, so code outside the library
+    (PyYAML, stdlib, Hypothesis, evaluated user code, the harness) never produces an event. No callback is
+    registered here: until a Scheduler installs one, events are dropped by the interpreter."""
+    import gc
+    import types
+    if REPO_CODES:
+        return
+    seen = set()
+    for o in gc.get_objects():
+        if isinstance(o, types.FunctionType):
+            c = o.__code__
+            if c.co_filename.startswith(core.PKG_PREFIX):
+                _walk_code(c, REPO_CODES, seen)
+    if mon.get_tool(TOOL) is None:
+        mon.use_tool_id(TOOL, 'aysim')
+    for c in REPO_CODES:
+        mon.set_local_events(TOOL, c, EV.LINE)
+
+
 class SimTimeout(BaseException):
     """Raised inside library code when an operation exceeds its step budget (bounded liveness)."""
 
@@ -175,35 +210,51 @@ class Scheduler:
         global CURRENT
         CURRENT = self
         self._collect_critical()
-        mon.use_tool_id(TOOL, 'aysim')
-        mon.register_callback(TOOL, EV.LINE, self._on_line)
-        mon.set_events(TOOL, EV.LINE)
+        preinstrument()
+        self._fast = self._fast_line_callback()
+        mon.register_callback(TOOL, EV.LINE, self._idle_callback if self._fast else self._on_line)
+        self._instr_codes = []
         if self.opcodes:
             mon.register_callback(TOOL, EV.INSTRUCTION, self._on_instr)
             focus = self.spec.get('focus')
             for code, name in self._crit_codes.items():
                 if focus is None or name in focus:
-                    mon.set_local_events(TOOL, code, EV.INSTRUCTION)
+                    mon.set_local_events(TOOL, code, EV.LINE | EV.INSTRUCTION)
+                    self._instr_codes.append(code)
 
     def _uninstall(self):
         global CURRENT
-        mon.set_events(TOOL, 0)
-        for code in self._crit_codes:
+        for code in self._instr_codes:
             try:
-                mon.set_local_events(TOOL, code, 0)
+                mon.set_local_events(TOOL, code, EV.LINE)
             except Exception:
                 pass
         mon.register_callback(TOOL, EV.LINE, None)
         mon.register_callback(TOOL, EV.INSTRUCTION, None)
-        mon.free_tool_id(TOOL)
         CURRENT = None
 
     # ---- callbacks ------------------------------------------------------------------------
     def _on_line(self, code, line):
-        fn = code.co_filename
-        if not fn.startswith(core.PKG_PREFIX):
-            return mon.DISABLE
         self._point(LINE, code, line)
+
+    import operator
+    _idle_callback = staticmethod(operator.is_)      # C-level no-op taking (code, line): used between operations
+
+    def _fast_line_callback(self):
+        """Single client, no pre-emption, no perturbation: the scheduler is only a step clock. Lines outside
+        begin_op/end_op cost one cheap callback (oracle code that walks the tree through the library is not timed)."""
+        if self.policy != 'serial' or len(self.threads) != 1 or self._perturb or self.opcodes:
+            return None
+        st = self.threads[0]
+        overrun = self._overrun
+
+        def on_line(code, line):
+            st.lines += 1
+            st.op_lines += 1
+            if st.next_alarm is not None and st.op_lines > st.next_alarm:
+                self.gstep = st.lines
+                overrun(st, code, line)
+        return on_line
 
     def _on_instr(self, code, offset):
         self._point(INSTR, code, offset)
@@ -452,6 +503,8 @@ def begin_op(label, budget=None):
     st.overruns = 0
     st.budget = budget
     st.next_alarm = budget
+    if s._fast:
+        mon.register_callback(TOOL, EV.LINE, s._fast)
 
 
 def end_op():
@@ -462,6 +515,8 @@ def end_op():
     n = st.op_lines
     st.next_alarm = None
     st.budget = None
+    if s._fast:
+        mon.register_callback(TOOL, EV.LINE, s._idle_callback)
     return n
 
 
